@@ -115,6 +115,25 @@ finding("C07-wildcard-let-derive-name", "C07", ["C01", "C09"],
  "`let l0 = (from t1 | derive {c0 = id + 1} | filter b > 0)  from l0 | group {a} (aggregate {s = sum c0})` emits `WITH table_0 AS (SELECT *, id + 1 AS _expr_0 FROM t1), l0 AS (SELECT * FROM table_0 WHERE b > 0) SELECT a, COALESCE(SUM(c0), 0) ... FROM l0`: the derived column is named _expr_0 inside the CTE but referred to as c0 outside (no such column).",
  {"source": "let l0 = (from t1 | derive {c0 = id + 1} | filter b > 0)\nfrom l0 | group {a} (aggregate {s = sum c0})", "arity": 2, "rows": [[I(1),I(5)]]})
 
+finding("C07-noop-take-keeps-sort", "C07", ["C01", "C03"],
+ "`sort ... | take 1..` (a take with no effect) followed by group/aggregate that does not use the sort columns (hazard open_take)",
+ "`from t1 | select {id, a, b} | sort {b, id} | take 1.. | group {a} (aggregate {m = min id})`: the sub-query keeps `ORDER BY b, id` but prunes b from its projection source, e.g. `table_0 AS (SELECT s, a, b FROM table_1 WHERE _expr_0 <= 1 ORDER BY x, id DESC)` (no such column).",
+ None)
+
+finding("C03-take-sort-take-merged", "C03", ["C01"],
+ "`sort A | take n | sort B | take m | group {key of B} (aggregate ...)` (hazard resort_after_take)",
+ "`from t1 | select {id, a} | sort {a, id} | take 1 | sort {-id} | take 1 | group {id} (aggregate {c1 = min a})` compiles to `WITH table_0 AS (SELECT id, a FROM t1 ORDER BY id DESC LIMIT 1) SELECT id, MIN(a) ... GROUP BY id`: the first sort+take is lost, the row with the largest id is returned instead of the first row by (a, id).",
+ {"source": "from t1 | select {id, a} | sort {a, id} | take 1 | sort {-id} | take 1 | group {id} (aggregate {c1 = min a})", "arity": 2, "rows": [[I(1),I(1)]]})
+finding("C07-sort-by-windowed-scope", "C07", ["C01", "C04"],
+ "sort whose key is a windowed column, followed by a windowed filter, take and group (hazard sort_by_windowed)",
+ "`group {b} (sort {id} | window expanding:true (derive {c3 = (rank id), c4 = (average 2.75)})) | sort {-c4, id} | filter (count id) > 0 | take ..3 | group {c3} (aggregate ...)` emits a CTE `... WHERE _expr_0 > 0 ORDER BY _expr_1 DESC, id LIMIT 3` over a sub-query that does not project _expr_1 (no such column).",
+ None)
+
+finding("C07-sort-column-pruned-before-take", "C07", ["C01", "C03", "C04"],
+ "sort, then a projection that drops a sort key or a windowed filter, then take, then group/aggregate not using the sort columns (hazard take_far_from_sort)",
+ "`from t1 | select {id, a} | sort {-id} | select {c3 = id + 1} | filter c3 > 0 | take ..2 | group {c3} (aggregate {n = count this})` emits `table_0 AS (SELECT c3 FROM table_1 WHERE c3 > 0 ORDER BY id DESC LIMIT 2)` although table_1 no longer projects id (no such column).",
+ {"source": "from t1 | select {id, a} | sort {-id} | select {c3 = id + 1} | filter c3 > 0 | take ..2 | group {c3} (aggregate {n = count this})", "arity": 2, "rows": [[I(4),I(1)],[I(3),I(1)]]})
+
 k = json.load(open(os.path.join(V, "known_findings.json")))
 keep = [f for f in k["findings"] if f["id"] not in {x["id"] for x in FINDINGS}]
 k["findings"] = keep + FINDINGS
